@@ -34,6 +34,14 @@ fn call_ffi(pw: &[u8], salt: &[u8], n: u32, r: u32, p: u32, dk_len: usize) -> (V
     (dk, guards_ok, inputs_ok)
 }
 
+/// the C-ABI function called IN PLACE: the output region overlaps the password buffer (and, when long enough, the salt) — legal for a C caller, the header
+/// declares no `restrict`. Returns the memory afterwards; the inputs must have been read before anything was written.
+fn call_ffi_in_place(pw: &[u8], salt: &[u8], n: u32, r: u32, p: u32, dk_len: usize) -> Vec<u8> {
+    let mut arena = vec![0xA5u8; GUARD]; arena.extend_from_slice(pw); arena.extend_from_slice(salt); let need = GUARD + dk_len; if arena.len() < need { arena.resize(need, 0xA5); } arena.extend_from_slice(&[0xA5u8; GUARD]);
+    unsafe { let base = arena.as_mut_ptr(); ffi::scrypt(base.add(GUARD), pw.len(), base.add(GUARD + pw.len()), salt.len(), n, r, p, base.add(GUARD), dk_len); }
+    arena
+}
+
 impl Prop for C18 {
     fn id(&self) -> &'static str { "C18" }
     fn rule(&self) -> String {
@@ -120,6 +128,16 @@ impl Prop for C18 {
             let src = m.ask(&format!("scrypt_ffi_src {} {} {} {} {} {} {} {} {} {}", hexd(&mem), pw_off, pw.len(), salt_off, salt.len(), n, r, p, dk_off, dk));
             if src != format!("ok {}", hex(&want)) && o.disagreement.is_none() { o.disagreement = Some(format!("the Lean definitions translated from src/ffi/src/lib.rs leave a different memory than the real call (N={}, r={}, p={}, dkLen={}): {}", n, r, p, dk, src.chars().take(160).collect::<String>())); }
             o.validated += 1; o.tags.push("translated ffi/lib.rs run".into());
+        }
+        if o.oracle_fail.is_none() && !pw.is_empty() && k <= 10 {
+            // in place: derive into the memory that holds the password
+            let got = catch_unwind(AssertUnwindSafe(|| call_ffi_in_place(&pw, &salt, n, r as u32, p as u32, dk)));
+            let mut want = vec![0xA5u8; GUARD]; want.extend_from_slice(&pw); want.extend_from_slice(&salt); if want.len() < GUARD + dk { want.resize(GUARD + dk, 0xA5); } want.extend_from_slice(&[0xA5u8; GUARD]);
+            want[GUARD..GUARD + dk].copy_from_slice(&lib);
+            o.validated += 1; o.tags.push("C-ABI call in place (output over the password buffer)".into());
+            match got { Err(_) => { o.oracle_fail = Some(("ffi-no-panic".into(), "C-ABI scrypt panicked when the output region overlaps the password".into())); }
+                Ok(mem) => { if mem != want { let region = &mem[GUARD..GUARD + dk]; o.oracle_fail = Some(("ffi-writes-rfc-value".into(), format!("C-ABI call with the output region over the password buffer (N={}, r={}, p={}, dkLen={}, |pw|={}, |salt|={}): {} — the value written is {}, RFC 7914 gives {}", n, r, p, dk, pw.len(), salt.len(),
+                    if region != &lib[..] { "the derived key is wrong (the inputs were overwritten before they were read)" } else { "memory outside the output region changed" }, hex(region), hex(&lib)))); } } }
         }
         // line for the OpenSSL cross-check
         o.tags.push(format!("@openssl {} {} {} {} {} {} {}", hexd(&pw), hexd(&salt), n, r, p, dk, hex(&lib)));
